@@ -24,7 +24,7 @@ NAMESPACE = "C09"
 POLY = ["Triangle", "Trapezoid", "Rectangle", "Ramp", "SShape", "ZShape", "PiShape", "Binary", "Concave"]
 TRANS = ["Gaussian", "Bell", "Sigmoid", "Cosine", "Spike", "GaussianProduct", "SigmoidDifference", "SigmoidProduct"]
 TIE_A = ["Norm."] + [f"Term.{c}.membership" for c in POLY + TRANS]
-RULE = ("5 integral defuzzifiers x resolution {1,2,3,5,10,100, random <= 1000 (<= 100 in quick)} x aggregated sets of 0-5 "
+RULE = ("5 integral defuzzifiers x resolution {1,2,3,5,10,100, random <= 100, in the thorough tier also random <= 1000} x aggregated sets of 0-5 "
         "activated shape terms x ranges (unit, symmetric, translated, tiny, large) x scalar and batch degrees (incl. 0, 1, "
         "NaN/inf degrees). Family 'dyadic': sample points, parameters, heights and degrees on dyadic grids (float arithmetic "
         "is exact), all 7x9 implication/aggregation pairs, plateaus, equal maxima, symmetric sets, gaps. Family 'general': "
@@ -331,8 +331,10 @@ DY_H = [1.0, 1.0, 1.0, 0.5, 0.75, 0.25]
 
 
 def resolutions(ctx):
-    cap = ctx.scale(100, 1000)
-    return [1, 2, 3, 5, 10, 100, ctx.rng.randint(4, cap), ctx.rng.randint(11, cap)]
+    """{1,2,3,5,10,100} and random ones; resolutions above 100 (exact arithmetic on up to 1000 samples is the
+    expensive part) only in the thorough tier, for about 2 % of the cases"""
+    big = ctx.thorough and ctx.rng.random() < 0.16
+    return [1, 2, 3, 5, 10, 100, ctx.rng.randint(4, 100), ctx.rng.randint(101, 1000) if big else ctx.rng.randint(11, 100)]
 
 
 def degree(rng, pool, batch):
@@ -347,8 +349,6 @@ def gen_dyadic(ctx, n):
     rng.shuffle(pairs)
     for k in range(n):
         r = rng.choice(resolutions(ctx))
-        if r > 100 and rng.random() < 0.5:
-            r = rng.choice([1, 2, 3, 5, 10])
         dx = rng.choice([0.5, 1.0, 2.0, 0.25, 1.0])
         lo = rng.choice([0.0, -r * dx / 2, 100.0, -64.0, 4096.0, 0.0])
         impl, agg = pairs[k % len(pairs)]
@@ -582,8 +582,8 @@ def compare(case, x, out, st=None):
 def cases(ctx):
     yield from corpus()
     yield from gen_errors(ctx)
-    yield from gen_dyadic(ctx, ctx.scale(2200, 12000))
-    yield from gen_general(ctx, ctx.scale(1300, 8000))
+    yield from gen_dyadic(ctx, ctx.scale(2200, 8000))
+    yield from gen_general(ctx, ctx.scale(1300, 5000))
 
 
 def correspond(ctx):
